@@ -22,6 +22,10 @@ def build_setting(lib, f):
         return '[' + f['v']
     if k == 'aset':
         return lib.AnsiSetting(f['v'])
+    if k == 'aset_astr':      # AnsiSetting built from an AnsiStr (a str): its TEXT is the setting
+        return lib.AnsiSetting(lib.AnsiStr(f['v'], 'red'))
+    if k == 'verb_astr':      # '[...' given as an AnsiStr
+        return lib.AnsiStr('[' + f['v'], 'bold')
     if k == 'list':
         return [build_setting(lib, x) for x in f['v']]
     if k == 'tuple':
@@ -304,7 +308,13 @@ def run(m, o):
                 # in-place mutators of AnsiString return None; anything else is recorded
                 obs['ret_not_none'] = 1
         if 'obs' in extra and out == 'ok':
-            obs.update(extra['obs'](val))
+            # the queries needed to observe the result are public calls too: if one of them raises, the operation is
+            # recorded with that outcome (a later query / rendering raising on a reachable value is a C09 matter)
+            o2, ob = guarded(lambda: extra['obs'](val))
+            if o2 == 'ok':
+                obs.update(ob)
+            else:
+                out = 'observe-' + o2
     else:
         obs['msg'] = cps(str(val)[:80]) if val is not None else []
         if 'obs_on_fail' in extra:
